@@ -6,7 +6,7 @@ META = {
     "technique": "Lean 4 theorems over an executable model of groupbalancer.go (Range, RoundRobin, RackAffinity with Go's map iteration orders as explicit parameters), for all member / partition lists; model↔code differential correspondence through a compiled Lean oracle on exhaustively enumerated small groups and seeded random large ones; the C14 monitor (cover, only-subscribers, balance, run/stride shape, rack bound) is evaluated on the implementation's output",
     "level_claimed": {
         "category": "proof",
-        "text": "Kernel-checked theorems for every list of members with distinct ids and duplicate-free topic lists and every list of partitions (no size bound): each listed partition of a subscribed topic goes to exactly one subscriber, nothing to non-subscribers, loads differ by at most one, Range = contiguous runs by id rank, RoundRobin = strides by id rank, both invariant under member listing order. The model is tied to groupbalancer.go by running the real AssignGroups and the model on the same generated groups.",
+        "text": "Kernel-checked theorems for every list of members with distinct ids and duplicate-free topic lists and every list of partitions (no size bound): each listed partition of a subscribed topic goes to exactly one subscriber, nothing to non-subscribers, loads differ by at most one — for Range, RoundRobin and RackAffinity; Range = contiguous runs by id rank, RoundRobin = strides by id rank, both invariant under member listing order; RackAffinity for every iteration order of its two Go map loops: no out-of-range slice/index (rack_total), cover, balance and the per-rack affinity bound min(led in rack, members in rack x floor(P/M)). The model is tied to groupbalancer.go by index/selection/ordering expressions re-extracted from the source on every run (Gen/GroupBalancerSel.lean, *_regenerated theorems) and by running the real AssignGroups and the model on the same generated groups (RackAffinity: equal to the model for some pair of iteration orders).",
         "design_ref": "DESIGN.md §7 C14",
     },
     "level_note": "Trusted: Lean kernel; propext/Classical.choice/Quot.sound; the driver/oracle correspondence (exhaustive small + sampled large inputs; Go's map iteration order is sampled, the theorems quantify over all orders); Go's sort.Slice and string comparison are modelled (insertion sort over an order-embedding of the ids) and validated by correspondence only; ids/topics/racks are opaque keys.",
@@ -20,6 +20,8 @@ def run(ctx):
         "member ids are distinct (the property speaks of a set of members)",
         "a member lists a topic at most once (a subscription is a set of topics); with a repeated topic Range/RoundRobin give that member two shares — outside the quantifier, exercised only for model fidelity",
         "partition ids are arbitrary ints and may repeat: cover is stated on multisets (listed partitions)",
+        "RackAffinity: the iteration orders are duplicate-free lists containing every rack that leads a partition of the topic (IterOrder) — what ranging over a Go map gives when only the current key is replaced/deleted inside the loop",
+        "Go int arithmetic on indices/lengths is modelled on Nat: index x length products do not overflow int64 for real slices",
         "the leader glue (consumergroup.go assignTopicPartitions) passes members/partitions through unchanged; its traces are covered by C15",
     ]
     broken = []
